@@ -74,4 +74,47 @@ theorem C15_last_unit_loss :
       s.files.omn = some [[3]] ∧ s.files.omenOpt = false := by
   decide
 
+
+/-- the `.omn` file a resumed session loads is the one the interrupted session wrote: both sites of `pcfg_grammar.py` name it by
+the same expression of the save-file name (re-proved against the current source on every run) — the state machine's single
+field `omn` stands for one file -/
+theorem C15_omn_name_same_at_save_and_load :
+    Generated.Session.omnNameAtSave = Generated.Session.omnNameAtLoad ∧ Generated.Session.omnNameAtSave ≠ "" := by decide
+
+
+/-! ## session files: one pair of files per session name -/
+
+/-- `program_info['session_name'] + '.sav'` -/
+def savName (session : List Char) : List Char := session ++ ".sav".toList
+/-- `self.save_file[:-4] + '.omn'` -/
+def omnName (saveFile : List Char) : List Char := saveFile.take (saveFile.length - 4) ++ ".omn".toList
+
+/-- the model above is what the source says (regenerated on every run) -/
+theorem C15_file_name_expressions :
+    Generated.Session.savNameExpr = "program_info['session_name']+'.sav'" ∧
+    Generated.Session.omnNameAtSave = "self.save_file[:-4]+'.omn'" ∧
+    Generated.Session.omnNameAtLoad = "self.save_file[:-4]+'.omn'" := by decide
+
+/-- **different session names never share a file**: the `.sav` and the `.omn` file are the session name with a fixed suffix, so two
+sessions that are quit and resumed in any interleaving keep their own queue position and their own pickled OMEN level — for every
+pair of names, also names that contain dots or end in `s`, `a`, `v` -/
+theorem C15_session_files_injective (s1 s2 : List Char) (h : s1 ≠ s2) :
+    omnName (savName s1) = s1 ++ ".omn".toList ∧
+    savName s1 ≠ savName s2 ∧ omnName (savName s1) ≠ omnName (savName s2) := by
+  have hom : ∀ s : List Char, omnName (savName s) = s ++ ".omn".toList := by
+    intro s
+    unfold omnName savName
+    have : (s ++ ".sav".toList).length - 4 = s.length := by simp
+    rw [this, List.take_left']
+    rfl
+  refine ⟨hom s1, ?_, ?_⟩
+  · intro e
+    exact h (List.append_cancel_right e)
+  · rw [hom, hom]
+    intro e
+    exact h (List.append_cancel_right e)
+
+example : omnName (savName "audit.ntlm".toList) = "audit.ntlm.omn".toList ∧
+    omnName (savName "canvas".toList) = "canvas.omn".toList := by decide
+
 end Pcfg.C15
